@@ -39,18 +39,11 @@ def insertCNode (n : CNode) : List CNode → List CNode
 def sortSection (l : List CNode) : List CNode := l.foldl (fun acc n => insertCNode n acc) []
 
 /-- the live section after merging a new file's section into it (`conf_replace_value` on
-    an unregistered-children object): nodes present in both keep their live name -/
-def mergeSection (live new : List CNode) : List CNode :=
-  sortSection (new.map fun n =>
-    match live.find? (cnodeEqKey n) with
-    | some m =>
-      -- children of an object node likewise keep their live names
-      let kids := n.kids.map fun (k, v) =>
-        match m.kids.find? (fun kv => Bytes.strcasecmp kv.1 k == 0) with
-        | some (k0, _) => (k0, v)
-        | none => (k, v)
-      { n with name := m.name, kids := kids }
-    | none => n)
+    an object whose children are all unregistered): entries the file omits are dropped, new
+    ones are spliced in, and an entry present in both takes the file's value *and the file's
+    spelling of its name* (names compare ignoring case).  What is left of the live section
+    is therefore nothing: the result is the file's section in set order. -/
+def mergeSection (_live new : List CNode) : List CNode := sortSection new
 
 structure Config where
   timeout : Nat := 0
@@ -334,13 +327,42 @@ def stepChunk (s : State) (chunk : Bytes) : M (State × List Bytes) :=
   let (lines, tail) := splitLines (s.inbuf ++ chunk)
   (stepLines { s with inbuf := [] } lines).map fun r => ({ r.1 with inbuf := tail }, r.2)
 
+/-- The service sections `iauth_xquery` is shown, one after the other, while
+    `conf_replace_value` merges a new file's section (`new`, in set order) into the live one
+    (`live`).  The module hears of a reload through two hooks: the forwarding hook it put on
+    every string entry (run as soon as that entry's value changes or goes away, with the
+    entries before it already merged and those after it still old) and the section's own
+    hook (run once at the end, when the membership changed: an entry added, removed, or
+    spelled differently).  Each run rescans the section as it is at that moment.
+    `done` = the part already merged, `m` = the C function's `modified`. -/
+def rescanWalk : List CNode → List CNode → List CNode → Bool → List (List CNode)
+  | done, [], [], m => if m then [done] else []
+  | done, t :: ts, [], _ =>
+    -- no longer present: the entry loses its value (its hook runs), then leaves the set
+    (if t.isString then [done ++ ts] else []) ++ rescanWalk done ts [] true
+  | done, [], n :: ns, _ => rescanWalk (done ++ [n]) [] ns true      -- spliced over
+  | done, t :: ts, n :: ns, m =>
+    if cnodeEqKey t n then
+      (if t.isString && t.value != n.value then [done ++ n :: ts] else []) ++
+        rescanWalk (done ++ [n]) ts ns (m || t.name != n.name)
+    else if cnodeLt t n then
+      (if t.isString then [done ++ ts] else []) ++ rescanWalk done ts (n :: ns) true
+    else rescanWalk (done ++ [n]) (t :: ts) ns true
+termination_by _ live new _ => live.length + new.length
+decreasing_by all_goals (simp only [List.length_cons, List.length_nil]; omega)
+
+/-- `iauth_xquery` learns of a configuration: at start-up it scans the section once; on a
+    reload it rescans at every hook run of the merge -/
+def deliverXq (s : State) (live xq : List CNode) (first : Bool) : State :=
+  if first then servicesChanged s xq else (rescanWalk [] live xq false).foldl servicesChanged s
+
 /-- install a configuration (first load or reload): deliver the sections to the modules
     whose section changed -/
 def applyConfig (s : State) (live : Config) (new : Config) (first : Bool) : State × Config :=
   let xq := mergeSection live.xq new.xq
   let cls := mergeSection live.cls new.cls
   let s := { s with timeout := new.timeout }
-  let s := if s.hasXq && (first || xq != live.xq) then servicesChanged s xq else s
+  let s := if s.hasXq then deliverXq s live.xq xq first else s
   let s := if s.hasClass && (first || cls != live.cls) then classChanged s cls else s
   (s, { timeout := new.timeout, xq := xq, cls := cls })
 
